@@ -466,3 +466,102 @@ theorem awaitableDone_qshape (c : Cfg) (f : Nat) (fn wf : Nat) (aw) (h : QShape 
       | exc e =>
         rw [aD_some_exc c f fn wf wk aw x key e hst hf he]
         exact ⟨_, deliver_qshape _ _ fn wf _ ⟨(by intro x; cases x), (by intro k x; cases x)⟩ (sh2 _)⟩
+
+theorem unint_setReady (c : Cfg) (R : List Cb) : unint (setReady c R) = setReady (unint c) R := by
+  cases c
+  rename_i st _ _ _ _ _ _ _ _ _ _ _ _ _ _ _ _ _ _ _ _ _ _ _ _
+  cases st <;> try rfl
+  simp only [unint, setReady]
+  split <;> rfl
+
+theorem setReady_qshape (c : Cfg) (R : List Cb) (fn wf : Nat) (aw) (h : QShape c fn wf aw) : QShape (setReady c R) fn wf aw := by
+  obtain ⟨wk, k, hst, hw, hpc, hp, hi⟩ := h
+  exact ⟨wk, k, hst, hw, hpc, hp, hi⟩
+
+theorem tickCb_adone_unint (c : Cfg) (f : Nat) (fn wf : Nat) (aw) (h : QShape c fn wf aw) :
+    tickCb (unint c) (.adone f) = unint (tickCb c (.adone f)) := by
+  rw [tickCb_adone_eq, tickCb_adone_eq, (unint_fields c).2.2.2]
+  split
+  · rw [← awaitableDone_unint _ f fn wf aw (setReady_qshape c _ fn wf aw h), unint_setReady]
+  · rfl
+
+theorem tickCb_adone_qshape (c : Cfg) (f : Nat) (fn wf : Nat) (aw) (h : QShape c fn wf aw) :
+    ∃ aw', QShape (tickCb c (.adone f)) fn wf aw' := by
+  rw [tickCb_adone_eq]
+  split
+  · exact awaitableDone_qshape _ f fn wf aw (setReady_qshape c _ fn wf aw h)
+  · exact ⟨aw, h⟩
+
+theorem tickCb_usercb_unint (c : Cfg) : tickCb (unint c) (.usercb false) = unint (tickCb c (.usercb false)) := by
+  rw [tickCb_usercb_eq, tickCb_usercb_eq, (unint_fields c).2.2.2]
+  split
+  · rw [unint_setReady]
+  · rfl
+
+theorem tickCb_usercb_qshape (c : Cfg) (fn wf : Nat) (aw) (h : QShape c fn wf aw) :
+    QShape (tickCb c (.usercb false)) fn wf aw := by
+  rw [tickCb_usercb_eq]
+  split
+  · exact setReady_qshape c _ fn wf aw h
+  · exact h
+
+/-! ### the phase `QW2` -/
+
+/-- a pause request interrupted the pending wait of the run with pauses, wake-ups may have been parked on it since; the wait
+of the reference run has received them: through `unint` both runs are at the same point -/
+structure QW2 (c d : Cfg) : Prop where
+  shape : ∃ fn wf aw, QShape c fn wf aw
+  view : InStep (unint c) d
+
+theorem qw_to_qw2 {c d : Cfg} (h : QW c d) : QW2 c d := by
+  obtain ⟨fn, wf, aw, wf', k, hst, hst', hw, hw', hpc, hpd⟩ := h.wait
+  refine ⟨⟨fn, wf, aw, none, k, hst, hw, hpc, parkOk_none, h.intSome⟩, ?_⟩
+  rw [unint_int c fn wf none aw k hst hw]
+  refine ⟨⟨h.sh, Or.inr ⟨fn, wf, aw, wf', .pending, rfl, hst', setAt_self_get _ _ _ _ hw, hw', by intro k' hk'; cases hk'⟩,
+    h.ckill, h.dint, h.dpaused⟩, h.intOk.of_eq rfl rfl, ?_, fun _ => ⟨h.stepping, h.paused⟩, ?_⟩
+  · show PcRelAt c.pc _ _
+    rw [hpc]
+    exact ⟨fn, none, aw, wf', rfl, hst', hpd⟩
+  · intro hr
+    have : isRunningPc c.pc = false := hr
+    rw [hpc] at this; cases this
+
+theorem resume_qw2 (c d : Cfg) (v : Option Val) (h : QW2 c d) : QW2 (resume c v).1 (resume d v).1 := by
+  obtain ⟨fn, wf, aw, hs⟩ := h.shape
+  exact ⟨⟨fn, wf, aw, resume_qshape c v fn wf aw hs⟩, by rw [← resume_unint c v fn wf aw hs]; exact resume_inStep _ _ v h.view⟩
+theorem complete_qw2 (c d : Cfg) (f : Nat) (o : EFut) (h : QW2 c d) : QW2 (complete c f o) (complete d f o) := by
+  obtain ⟨fn, wf, aw, hs⟩ := h.shape
+  exact ⟨⟨fn, wf, aw, complete_qshape c f o fn wf aw hs⟩,
+    by rw [← complete_unint c f o fn wf aw hs]; exact complete_inStep _ _ f o h.view⟩
+theorem tickCb_adone_qw2 (c d : Cfg) (f : Nat) (h : QW2 c d) : QW2 (tickCb c (.adone f)) (tickCb d (.adone f)) := by
+  obtain ⟨fn, wf, aw, hs⟩ := h.shape
+  obtain ⟨aw', hs'⟩ := tickCb_adone_qshape c f fn wf aw hs
+  exact ⟨⟨fn, wf, aw', hs'⟩, by rw [← tickCb_adone_unint c f fn wf aw hs]; exact tickCb_adone_inStep _ _ f h.view⟩
+theorem tickCb_usercb_qw2 (c d : Cfg) (h : QW2 c d) : QW2 (tickCb c (.usercb false)) (tickCb d (.usercb false)) := by
+  obtain ⟨fn, wf, aw, hs⟩ := h.shape
+  exact ⟨⟨fn, wf, aw, tickCb_usercb_qshape c fn wf aw hs⟩,
+    by rw [← tickCb_usercb_unint c]; exact tickCb_usercb_inStep _ _ h.view⟩
+theorem callSoon_qw2 (c d : Cfg) (r : Bool) (h : QW2 c d) :
+    QW2 { c with ready := c.ready ++ [.usercb r] } { d with ready := d.ready ++ [.usercb r] } := by
+  obtain ⟨fn, wf, aw, hs⟩ := h.shape
+  refine ⟨⟨fn, wf, aw, setReady_qshape c _ fn wf aw hs⟩, ?_⟩
+  have e : unint { c with ready := c.ready ++ [.usercb r] } = setReady (unint c) ((unint c).ready ++ [.usercb r]) := by
+    rw [(unint_fields c).2.2.2]; exact unint_setReady c _
+  rw [e]
+  exact callSoon_inStep _ _ r h.view
+
+theorem wake_qw2 (P : Prog) (c d : Cfg) (e : Ev) (h : isWake e = true) (hl : QW2 c d) :
+    QW2 (step P c e).1 (step P d e).1 := by
+  cases e with
+  | resume v => exact resume_qw2 c d v hl
+  | complete f o => exact complete_qw2 c d f o hl
+  | callSoon r => exact callSoon_qw2 c d r hl
+  | tickCb cb =>
+    cases cb with
+    | adone f => exact tickCb_adone_qw2 c d f hl
+    | trykill => cases h
+    | usercb r =>
+      cases r with
+      | false => exact tickCb_usercb_qw2 c d hl
+      | true => cases h
+  | _ => cases h
